@@ -27,6 +27,12 @@ pub fn gen_digest(p: &Path) -> Value {
     }
 }
 
+pub fn gen_digest_str(s: &str) -> String {
+    let mut h = DefaultHasher::new();
+    s.hash(&mut h);
+    format!("{:016x}", h.finish())
+}
+
 pub fn mask(s: &str) -> String {
     // BUILD_TIME = "...." inside the cache comment, and the "// lrlex build time: ..." line
     let re = regex::Regex::new(r#"(BUILD_TIME = \\?"[^"\\]*\\?")|(GRAMMAR_PATH = \\?"[^"\\]*\\?")|(// lrlex build time: "[^"]*")"#).unwrap();
